@@ -25,6 +25,8 @@ remove such a write leave the list unchanged):
   ambient-read|<file>|<scope>|<dotted name> a read of something that is neither an argument nor the file system below a given path: os.getcwd,
                                            os.path.abspath/realpath/expanduser/expandvars, Path.cwd/home/resolve/absolute, os.environ/getenv, time.*,
                                            datetime.now/today/utcnow, random.*, uuid.*, os.getpid, os.listdir/scandir/walk, glob.*, locale/platform/socket queries
+  memo|<file>|<function>|<decorator>        a function whose results are memoised process-wide: functools.lru_cache / cache / cached_property /
+                                           any decorator whose name contains cache or memo (objects returned from it are shared by all callers)
   antlr|<file>|<Class>.<attr>              class-level objects of the generated lexers/parsers (ATN, DFA list, context cache): shared by
                                            all parser instances and mutated by the antlr4 runtime
 
@@ -151,6 +153,11 @@ class _Scan(ast.NodeVisitor):
         self.generic_visit(node)
 
     def visit_FunctionDef(self, node: ast.FunctionDef) -> None:
+        for dec in node.decorator_list:
+            d = dotted(dec.func if isinstance(dec, ast.Call) else dec) or ""
+            last = d.split(".")[-1].lower()
+            if "cache" in last or "memo" in last:
+                self.out.add(f"memo|{self.rel}|{'.'.join(self.scope + [node.name])}|{d}")
         a = node.args
         pos = a.posonlyargs + a.args
         for arg, d in list(zip(pos[len(pos) - len(a.defaults):], a.defaults)) + [(x, y) for x, y in zip(a.kwonlyargs, a.kw_defaults) if y is not None]:
@@ -219,6 +226,8 @@ class _Scan(ast.NodeVisitor):
         elif isinstance(node.func, ast.Attribute) and node.func.attr in AMBIENT_METHODS and not node.args and f is not None and not f.startswith(("self.", "cls.")) \
                 and any(x in f for x in ("Path", "path", "file", "dir")):
             self.out.add(f"ambient-read|{self.rel}|{self.where()}|.{node.func.attr}()")
+        if f is not None and f.split(".")[-1] in ("lru_cache", "cache") and f.split(".")[0] in ("functools", "lru_cache", "cache"):
+            self.out.add(f"memo|{self.rel}|{self.where()}|{f}()")
         if f in ("id", "hash") and self.fn_depth > 0:
             self.out.add(f"identity-key|{self.rel}|{self.where()}|{f}")
         if f is not None:
